@@ -147,6 +147,26 @@ def compare(cur, base):
     return lines, rep
 
 
+def _splice_grouped(fx):
+    """a grouping field that the aliases made transparent (its name is empty) is replaced, in the ADT table, by the fields of the
+    private struct it holds: the ADT reads as in the baseline"""
+    for d, r in fx.adts.items():
+        for v in r.get("variants", []):
+            out, changed = [], False
+            for f in v.get("fields", []):
+                inner = fx.adts.get(re.sub(r"<.*$", "", f.get("ty", ""))) if f.get("name") == "" else None
+                if inner is not None and len(inner.get("variants", [])) == 1:
+                    for g in inner["variants"][0].get("fields", []):
+                        h = dict(g)
+                        h["vis"] = f.get("vis", g.get("vis"))
+                        out.append(h)
+                    changed = True
+                else:
+                    out.append(f)
+            if changed:
+                v["fields"] = out
+
+
 def load(cfg):
     """Facts of the current tree, normalised against the baseline of `cfg` (identity when there is no baseline or nothing differs)."""
     fx = F.Facts(extract.facts_path(cfg), cfg)
@@ -158,6 +178,7 @@ def load(cfg):
     lines, rep = compare(cur, base)
     if lines:
         fx = F.Facts(extract.facts_path(cfg, aliases=lines), cfg)
+        _splice_grouped(fx)
         cur = snapshot(fx)
         lines2, rep2 = compare(cur, base)
         rep["new_fns"] = rep2["new_fns"]
